@@ -140,7 +140,14 @@ impl Kind {
     fn tag(&self) -> &'static str { match self { Kind::Fung => "f", Kind::Example => "x", Kind::Nft => "n" } }
 }
 
-const MAXTTL: u32 = 6000;
+/// host configurations: (max_entry_ttl = min_persistent_entry_ttl, min_temp_entry_ttl).
+/// A: mainnet-like maximum; B: just above the library's 30-day extend amounts, one-day temporary minimum;
+/// C: tiny maximum (every library extend_ttl on a persistent entry is clamped).
+/// min persistent ttl = max ttl in all of them: an entry removed and re-created inside one invocation (full
+/// self-transfer) must not get a smaller live_until than before - the test host's rent metering underflows otherwise.
+/// The test host auto-restores expired persistent entries and the contract instance (probed up to +4.6M ledgers).
+const HOST_CFGS: [(u32, u32); 3] = [(3_110_400, 1), (1_000_000, 17_280), (6000, 1)];
+const LONG_ADVANCES: [u32; 6] = [20, 100, 17_281, 20_000, 600_000, 4_000_000];
 const NIDS: usize = 8;
 
 #[derive(Clone, Debug)]
@@ -190,16 +197,19 @@ struct Sut {
     owner: usize,
     now: u32,
     start: u32,
+    maxttl: u32,
+    appr_at: Vec<(usize, usize, u32)>, // (owner, spender, ledger of the last successful approve)
     touched: Vec<u32>, // ledgers at which a state-changing call succeeded
     view: View,
 }
 
 impl Sut {
-    fn new(kind: Kind, naddr: usize, start: u32) -> Sut {
+    fn new(kind: Kind, naddr: usize, start: u32, hc: usize) -> Sut {
+        let (maxttl, min_temp) = HOST_CFGS[hc];
         let e = Env::default();
         e.cost_estimate().budget().reset_unlimited();
         e.cost_estimate().disable_resource_limits();
-        e.ledger().with_mut(|l| { l.sequence_number = start; l.min_temp_entry_ttl = 1; l.max_entry_ttl = MAXTTL; l.min_persistent_entry_ttl = MAXTTL; });
+        e.ledger().with_mut(|l| { l.sequence_number = start; l.min_temp_entry_ttl = min_temp; l.max_entry_ttl = maxttl; l.min_persistent_entry_ttl = maxttl; });
         // (min persistent ttl = max ttl: an entry removed and re-created inside one invocation - full self-transfer -
         //  must not get a smaller live_until than before, the test host's rent metering underflows otherwise)
         let addrs: Vec<Address> = (0..naddr).map(|_| Address::generate(&e)).collect();
@@ -210,11 +220,11 @@ impl Sut {
             Kind::Nft => e.register(nw::NftW, ()),
         };
         let view = View { bal: vec![0; naddr], dlg: vec![None; naddr], votes: vec![0; naddr], ncps: vec![0; naddr], ts_ncps: 0, owners: vec![None; NIDS], alw: vec![] };
-        Sut { e, kind, id, addrs, owner, now: start, start, touched: vec![], view }
+        Sut { e, kind, id, addrs, owner, now: start, start, maxttl, appr_at: vec![], touched: vec![], view }
     }
     fn header(&self) -> String {
         format!("{{| h_kind := {}; h_n := {}; h_ids := {}; h_start := {}; h_maxttl := {}; h_owner := {} |}}",
-                self.kind.coq(), self.addrs.len(), if self.kind == Kind::Nft { NIDS } else { 0 }, self.start, MAXTTL, n(self.owner as u64))
+                self.kind.coq(), self.addrs.len(), if self.kind == Kind::Nft { NIDS } else { 0 }, self.start, self.maxttl, n(self.owner as u64))
     }
     fn idx(&self, a: &Address) -> Option<usize> { self.addrs.iter().position(|x| x == a) }
     fn av(&self, i: usize) -> Val { self.addrs[i].to_val() }
@@ -440,7 +450,8 @@ impl Gen {
         };
         let r = rng.below(100);
         let (c, need): (Call, Option<usize>) = if r < 17 {
-            let k = if self.gaps { match rng.below(6) { 0 => 1, 1 => 2, 2 => 1 + rng.below(40) as u32, 3 => 100 + rng.below(900) as u32, _ => 1 + rng.below(5) as u32 } }
+            let k = if self.gaps { match rng.below(8) { 0 => 1, 1 => 2, 2 => 1 + rng.below(40) as u32, 3 => 100 + rng.below(900) as u32,
+                                                       4 | 5 if s.now < 4_000_000_000 => *rng.pick(&LONG_ADVANCES), _ => 1 + rng.below(5) as u32 } }
                     else { match rng.below(8) { 0 => 2, 1 => 3, _ => 1 } };
             (Call::Advance(k), None)
         } else if r < 33 {
@@ -471,7 +482,7 @@ impl Gen {
         } else if r < 89 {
             // approve (owner -> spender)
             let o = holder; let sp = b_;
-            let live = match rng.below(8) { 0 => s.now.saturating_sub(1), 1 => s.now, 2 => s.now + MAXTTL - 1, 3 => s.now.saturating_add(MAXTTL), 4 => 0, _ => s.now + 1 + rng.below(60) as u32 };
+            let live = match rng.below(8) { 0 => s.now.saturating_sub(1), 1 => s.now, 2 => s.now + s.maxttl - 1, 3 => s.now.saturating_add(s.maxttl), 4 => 0, 5 if self.gaps => s.now + 700_000.min(s.maxttl - 1), _ => s.now + 1 + rng.below(60) as u32 };
             let x = if nft { owned(rng, o) } else { match rng.below(6) { 0 => 0, 1 => -1, _ => 1 + rng.u_bits(14) } };
             (Call::Approve(o, sp, x, live), Some(o))
         } else if r < 96 {
@@ -521,31 +532,52 @@ fn classify(s: &Sut, c: &Call, ok: bool, before: &View) -> Vec<String> {
     ls
 }
 
-fn run_trace(out: &mut Out, rng: &mut Rng, desc: &str, kind: Kind, naddr: usize, start: u32, script: Vec<(Call, Vec<usize>)>, random_len: usize, gaps: bool) {
-    let mut s = Sut::new(kind, naddr, start);
+fn run_trace(out: &mut Out, rng: &mut Rng, desc: &str, kind: Kind, naddr: usize, start: u32, script: Vec<(Call, Vec<usize>)>, random_len: usize, gaps: bool, hc: usize) {
+    let mut s = Sut::new(kind, naddr, start, hc);
     let g = Gen { kind, naddr, gaps };
     let mut items: Vec<String> = vec![];
     let mut script = script.into_iter();
     let total = script.len() + random_len;
-    for _ in 0..total {
-        let (c, au) = match script.next() { Some(x) => x, None => g.next(rng, &s) };
-        let before = s.view.clone();
-        let res = s.exec(&c, &au);
-        let ok = res != "Fail";
-        // the harness's own memory of allowances / approvals (only to aim the generator)
-        if ok { if let Call::Approve(o, sp, x, l) = &c { s.view.alw.retain(|t| !(t.0 == *o && t.1 == *sp)); if *l >= s.now { s.view.alw.push((*o, *sp, *x, *l)); } } }
-        let obs = s.observe(rng, out);
-        let ctext = c.coq();
-        let au_s = list(&au.iter().map(|&i| n(i as u64)).collect::<Vec<_>>());
-        for l in classify(&s, &c, ok, &before) { out.label(&l); }
-        out.case(&format!("any.{}/{}", c.name(), if ok { "ok" } else { "fail" }), &format!("{} {} {} @{}", kind.tag(), au_s, ctext, s.now));
-        items.push(format!("({}, {}, {}, {})", au_s, ctext, res, obs));
+    out.label(["cfg.A", "cfg.B", "cfg.C"][hc]);
+    // a trap inside the host itself (not a contract error) must not abort the harness: the trace ends with a sentinel
+    // observation that both the diff and the monitor flag
+    let r = std::panic::catch_unwind(std::panic::AssertUnwindSafe(|| {
+        for _ in 0..total {
+            let (c, au) = match script.next() { Some(x) => x, None => g.next(rng, &s) };
+            let before = s.view.clone();
+            let res = s.exec(&c, &au);
+            let ok = res != "Fail";
+            // the harness's own memory of allowances / approvals (only to aim the generator)
+            if ok { if let Call::Approve(o, sp, x, l) = &c {
+                s.view.alw.retain(|t| !(t.0 == *o && t.1 == *sp)); if *l >= s.now { s.view.alw.push((*o, *sp, *x, *l)); }
+                s.appr_at.retain(|t| !(t.0 == *o && t.1 == *sp)); s.appr_at.push((*o, *sp, s.now));
+            } }
+            let obs = s.observe(rng, out);
+            let ctext = c.coq();
+            let au_s = list(&au.iter().map(|&i| n(i as u64)).collect::<Vec<_>>());
+            for l in classify(&s, &c, ok, &before) { out.label(&l); }
+            if ok { match &c {
+                Call::Advance(k) if *k >= 600_000 => { out.label("advance.huge/ok"); }
+                Call::Advance(k) if *k >= 17_281 => { out.label("advance.long/ok"); }
+                Call::TransferFrom(sp, o, _, _) | Call::BurnFrom(sp, o, _) => {
+                    if s.appr_at.iter().any(|t| t.0 == *o && t.1 == *sp && s.now - t.2 >= 17_281) { out.label("spend.after-long-gap/ok"); }
+                }
+                _ => {}
+            } }
+            out.case(&format!("any.{}/{}", c.name(), if ok { "ok" } else { "fail" }), &format!("{} {} {} @{} cfg{}", kind.tag(), au_s, ctext, s.now, hc));
+            items.push(format!("({}, {}, {}, {})", au_s, ctext, res, obs));
+        }
+    }));
+    if r.is_err() {
+        out.label("host-panic");
+        items.push(format!("([], Advance 0, (Ok 0), mkO {} [] (-1) (-1) [] [] [])", s.now));
     }
     let nn = items.len();
     out.trace(desc, format!("({}, {})", s.header(), list(&items)), nn);
 }
 
 fn main() {
+    std::panic::set_hook(Box::new(|info| { let m = format!("{}", info); eprintln!("c13: panic caught: {}", &m[..m.len().min(300)]); }));
     let mut out = Out::new("From SC Require Import Lib.Prelude Lib.Int Lib.Host Model.Votes Run.C13.\nOpen Scope Z_scope.", "check_all");
     out.per_shard(if out.cfg.thorough { 600 } else { 380 });
     let mut rng = Rng::new(out.cfg.seed);
@@ -574,28 +606,57 @@ fn main() {
             Advance(1), Delegate(1, 0), Mint(1, x(7, 2)), Delegate(0, 2), Advance(2), Transfer(1, 1, x(5, 0)), Transfer(1, 0, x(57, 0)),
             Delegate(2, 2), Advance(1), Delegate(0, 0), Delegate(1, 1), Advance(3),
         ], kind);
-        run_trace(&mut out, &mut rng, "directed/one-ledger-bursts", kind, 3, 0, sc, 0, false);
+        run_trace(&mut out, &mut rng, "directed/one-ledger-bursts", kind, 3, 0, sc, 0, false, 0);
         // 2. one checkpoint per ledger: list lengths 1 .. 9 for the binary search, every ledger queried
         let mut v = vec![Delegate(0, 1), Delegate(2, 1)];
         for k in 0..9 { v.push(Mint(if k % 2 == 0 { 0 } else { 2 }, x(10 + k, k % 8))); v.push(Advance(if k % 3 == 2 { 2 } else { 1 })); }
-        run_trace(&mut out, &mut rng, "directed/lengths-1-to-9", kind, 3, 1, all(v, kind), 0, false);
+        run_trace(&mut out, &mut rng, "directed/lengths-1-to-9", kind, 3, 1, all(v, kind), 0, false, 1);
         // 3. start at a later ledger: every past ledger before the first checkpoint answers 0
         let sc = all(vec![Mint(1, x(5, 3)), Delegate(1, 1), Advance(1), Delegate(1, 0), Advance(1), Delegate(1, 2), Advance(4)], kind);
-        run_trace(&mut out, &mut rng, "directed/late-start", kind, 3, 7, sc, 0, false);
+        run_trace(&mut out, &mut rng, "directed/late-start", kind, 3, 7, sc, 0, false, 2);
         if kind != Kind::Example {
             // 4. burn paths: burn, burn_from, full burn back to zero units (entry removed)
             let sc = all(vec![
                 Mint(0, x(40, 0)), Mint(0, x(2, 1)), Delegate(0, 1), Advance(1), Approve(0, 2, x(25, 0), 50), BurnFrom(2, 0, x(10, 0)),
                 Advance(1), Burn(0, x(32, 1)), Advance(1), Mint(0, x(3, 2)), Advance(2),
             ], kind);
-            run_trace(&mut out, &mut rng, "directed/burns", kind, 3, 0, sc, 0, false);
+            run_trace(&mut out, &mut rng, "directed/burns", kind, 3, 0, sc, 0, false, 1);
         }
         // 5. transfer_from between accounts with different / same delegates
         let sc = all(vec![
             Mint(0, x(90, 0)), Mint(0, x(1, 1)), Delegate(0, 2), Delegate(1, 2), Advance(1), Approve(0, 1, x(60, 0), 40), TransferFrom(1, 0, 1, x(15, 0)),
             Advance(1), Delegate(1, 1), Approve(0, 1, x(60, 1), 40), TransferFrom(1, 0, 1, x(20, 1)), Advance(2),
         ], kind);
-        run_trace(&mut out, &mut rng, "directed/transfer-from", kind, 3, 0, sc, 0, false);
+        run_trace(&mut out, &mut rng, "directed/transfer-from", kind, 3, 0, sc, 0, false, 0);
+    }
+
+    // 7. persistence: every stored item (balances, units, delegatees, checkpoint counters and entries, supply, owners,
+    //    a long-lived allowance / approval) is written, then ONE Advance of 20 / 100 / 17281 / 20000 / 600000 / 4000000
+    //    ledgers follows; the observation right after it already shows anything that lapsed, and later calls use the state
+    for &kind in &[Kind::Fung, Kind::Example, Kind::Nft] {
+        let nft = kind == Kind::Nft;
+        let x = |v: i128, id: i128| if nft { id } else { v };
+        for hc in 0..2usize {
+            let live = 700_000u32.min(HOST_CFGS[hc].0 - 1);
+            let mut v = vec![
+                Mint(0, x(100, 0)), Mint(2, x(40, 1)), Mint(0, x(9, 2)), Delegate(0, 1), Delegate(2, 2), Approve(0, 2, x(30, 2), live),
+                Advance(20), Transfer(0, 2, x(10, 0)),
+                Advance(100), Delegate(2, 1),
+                Advance(17_281), Mint(1, x(5, 3)),
+                Advance(20_000), Transfer(2, 0, x(3, 1)),
+                Advance(600_000),
+                TransferFrom(2, 0, 1, x(20, 2)),
+                Advance(4_000_000), Delegate(0, 0),
+            ];
+            if kind != Kind::Example { v.push(Burn(2, x(1, 0))); }
+            v.extend(vec![Advance(600_000), Transfer(1, 2, x(2, 3)), Advance(20), Delegate(1, 1), Advance(4_000_000)]);
+            run_trace(&mut out, &mut rng, "directed/persistence", kind, 3, 0, all(v, kind), 0, true, hc);
+        }
+        // dormant accounts: state is written once, then only long single advances with no call at all in between
+        let mut v = vec![Mint(0, x(50, 0)), Mint(1, x(8, 1)), Delegate(0, 2), Delegate(1, 1)];
+        for k in LONG_ADVANCES { v.push(Advance(k)); }
+        v.push(Delegate(0, 0)); v.push(Advance(4_000_000)); v.push(Transfer(1, 0, x(8, 1)));
+        run_trace(&mut out, &mut rng, "directed/dormant", kind, 3, 3, all(v, kind), 0, true, 1);
     }
 
     // 6. long lists: one checkpoint per ledger up to 2^5+2 (quick) / 2^8+2 (thorough) entries, so that the binary
@@ -614,7 +675,7 @@ fn main() {
             };
             v.push(c); v.push(Advance(1));
         }
-        run_trace(&mut out, &mut rng, "directed/long-lists", kind, 3, 0, all(v, kind), 0, false);
+        run_trace(&mut out, &mut rng, "directed/long-lists", kind, 3, 0, all(v, kind), 0, false, if nft { 1 } else { 0 });
     }
 
     // ---- random traces ----
@@ -626,7 +687,8 @@ fn main() {
         let start = match rng.below(6) { 0 => 0, 1 => 1, 2 => 2 + rng.below(8) as u32, 3 if gaps => 1000 + rng.below(100000) as u32, _ => 0 };
         let l = if kind == Kind::Example { len * 2 / 3 } else { len };
         let l = if thorough && gaps { l * 2 } else { l };
-        run_trace(&mut out, &mut rng, &format!("random/{}{}", kind.tag(), if gaps { "/gaps" } else { "" }), kind, naddr, start, vec![], l, gaps);
+        let hc = match i % 20 { 0..=9 => 0, 10..=16 => 1, _ => 2 };
+        run_trace(&mut out, &mut rng, &format!("random/{}{}", kind.tag(), if gaps { "/gaps" } else { "" }), kind, naddr, start, vec![], l, gaps, hc);
     }
     out.finish();
 }
